@@ -33,6 +33,8 @@ structure TState (α : Type) where
   getCp : Nat
   full : Bool
   empty : Bool
+  af : Bool             -- almostFull(level)  : reg(pushSize >= N - level, '0')  (inherited, Fifo.h:197-215)
+  ae : Bool             -- almostEmpty(level) : reg(popSize <= level, '1')       (inherited, Fifo.h:176-194)
   peek : α
   mem : List α
   getChain : List Nat   -- getCheckpoint → push side (lr-1 registers)
@@ -46,9 +48,11 @@ structure TEv (α : Type) where
   pushCommit : Bool       -- IF(pushCommit) fifo.commitPush(cutoff)
   pushRollback : Bool     -- IF(pushRollback) fifo.rollbackPush()      (called after commitPush)
   cutoff : Nat
+  afLevel : Nat := 0
   popReq : Bool
   popCommit : Bool        -- IF(popCommit) fifo.commitPop()
   popRollback : Bool      -- IF(popRollback) fifo.rollbackPop()        (called after commitPop)
+  aeLevel : Nat := 0
 
 /-- the strobes that reach the circuit: the later call overrides the earlier one -/
 def TEv.pc (e : TEv α) : Bool := e.pushCommit && !e.pushRollback
@@ -75,7 +79,7 @@ def getFinal (c : Cfg) (s : TState α) (e : TEv α) : Nat :=
 def getCpNext (c : Cfg) (s : TState α) (e : TEv α) : Nat := if e.qc then getFinal c s e else s.getCp
 
 def tinit (c : Cfg) (x : α) : TState α :=
-  { put := 0, putCp := 0, get := 0, getCp := 0, full := false, empty := true, peek := x, mem := List.replicate c.N x
+  { put := 0, putCp := 0, get := 0, getCp := 0, full := false, empty := true, af := false, ae := true, peek := x, mem := List.replicate c.N x
     getChain := List.replicate (c.lr - 1) 0, putChain := List.replicate (c.lw - 1) 0 }
 
 def tstep (c : Cfg) (s : TState α) (e : TEv α) : TState α :=
@@ -90,6 +94,8 @@ def tstep (c : Cfg) (s : TState α) (e : TEv α) : TState α :=
   { put := pf, putCp := pcp, get := gf, getCp := gcp
     full := fullCond c pf og
     empty := emptyCond c op gf
+    af := decide (ptrSub c c.N (e.afLevel % c.M) ≤ ptrSub c pf og)
+    ae := decide (ptrSub c op gf ≤ e.aeLevel % c.M)
     peek := (rd[gf % c.N]?).getD s.peek
     mem := mem'
     getChain := shiftChain s.getChain true true false false gcp
@@ -99,16 +105,18 @@ structure TOut (α : Type) where
   full : Bool
   pushValid : Bool
   pushSize : Nat
+  af : Bool
   empty : Bool
   popValid : Bool
   popSize : Nat
+  ae : Bool
   peek : α
 
 def toutputs (c : Cfg) (s : TState α) (e : TEv α) : TOut α :=
   { full := s.full, pushValid := s.pushValid e
-    pushSize := ptrSub c (putFinal c s e) (obs s.getChain (getCpNext c s e))
+    pushSize := ptrSub c (putFinal c s e) (obs s.getChain (getCpNext c s e)), af := s.af
     empty := s.empty, popValid := s.popValid e
-    popSize := ptrSub c (obs s.putChain (putCpNext c s e)) (getFinal c s e)
+    popSize := ptrSub c (obs s.putChain (putCpNext c s e)) (getFinal c s e), ae := s.ae
     peek := s.peek }
 
 def trun (c : Cfg) (s : TState α) : List (TEv α) → TState α
@@ -138,26 +146,37 @@ structure TSpec (α : Type) where
   gc : Nat := 0
   gt : Nat := 0
   now : Nat := 0
+  afLvl : Option Nat := none   -- level applied at the last non-reset clock edge (none: flag still holds its reset value)
+  aeLvl : Option Nat := none
 
-def tcheck [BEq α] (N lw : Nat) (q : TSpec α) (e : TEv α) (o : TOut α) : List String × TSpec α :=
-  if e.rst then ((if o.pushValid || o.popValid then ["trans-valid-during-reset"] else []), q)
+def tcheck [BEq α] (N M lw : Nat) (q : TSpec α) (e : TEv α) (o : TOut α) : List String × TSpec α :=
+  -- flags, levels and sizes are checked in every cycle from power-on (nothing is held while the reset is asserted);
+  -- occupancy = what blocks the producer, available = what the consumer may still take
+  let rd := q.gc + q.gt
+  let occ := q.com.length + q.tent.length - q.gc
+  let avail := q.com.length - rd
+  let vr := if e.rst && (o.pushValid || o.popValid) then ["trans-valid-during-reset"] else []
+  let v0 := if (o.pushValid && !e.pushReq) || (o.popValid && !e.popReq) then ["trans-valid-without-request"] else []
+  let v1 := if o.pushValid && occ ≥ N then ["trans-accept-when-full"] else []
+  let v2 := if o.popValid then
+              match q.com[rd]? with
+              | none => ["trans-yield-uncommitted-or-none"]
+              | some x => if x == o.peek then [] else ["trans-wrong-item"]
+            else []
+  let v3 := if !o.empty then
+              match q.com[rd]? with
+              | none => ["trans-exposes-nothing"]
+              | some x => if x == o.peek then [] else ["trans-wrong-item-exposed"]
+            else []
+  let v4 := match q.comAt[rd]? with
+            | some t => if o.empty && q.now ≥ t + lw then ["trans-not-exposed"] else []
+            | none => []
+  let afl := q.afLvl.getD e.afLevel
+  let v6 := if afl ≤ N && !o.af && !(occ + afl < N) then ["trans-af-optimistic"] else []
+  let ael := q.aeLvl.getD (e.aeLevel % M)
+  let v7 := if !o.ae && !(ael < avail) then ["trans-ae-optimistic"] else []
+  if e.rst then (vr ++ v3 ++ v6 ++ v7 ++ (if o.popSize > 0 then ["trans-pop-size-optimistic"] else []), { q with afLvl := none, aeLvl := none })
   else
-    let rd := q.gc + q.gt
-    let v0 := if (o.pushValid && !e.pushReq) || (o.popValid && !e.popReq) then ["trans-valid-without-request"] else []
-    let v1 := if o.pushValid && q.com.length + q.tent.length - q.gc ≥ N then ["trans-accept-when-full"] else []
-    let v2 := if o.popValid then
-                match q.com[rd]? with
-                | none => ["trans-yield-uncommitted-or-none"]
-                | some x => if x == o.peek then [] else ["trans-wrong-item"]
-              else []
-    let v3 := if !o.empty then
-                match q.com[rd]? with
-                | none => ["trans-exposes-nothing"]
-                | some x => if x == o.peek then [] else ["trans-wrong-item-exposed"]
-              else []
-    let v4 := match q.comAt[rd]? with
-              | some t => if o.empty && q.now ≥ t + lw then ["trans-not-exposed"] else []
-              | none => []
     -- producer side, statement order: push, rollback, commit(cutoff)
     let tent1 := if o.pushValid then q.tent ++ [e.data] else q.tent
     let tent2 := if e.pr then [] else tent1
@@ -171,6 +190,11 @@ def tcheck [BEq α] (N lw : Nat) (q : TSpec α) (e : TEv α) (o : TOut α) : Lis
     let gt2 := if e.qr then 0 else gt1
     let gc' := if e.qc then q.gc + gt2 else q.gc
     let gt' := if e.qc then 0 else gt2
-    (v0 ++ v1 ++ v2 ++ v3 ++ v4 ++ v5, { com := com', comAt := comAt', tent := tent', gc := gc', gt := gt', now := q.now + 1 })
+    -- size outputs already include this cycle's operations
+    let v8 := if o.pushSize < com'.length + tent'.length - gc' then ["trans-push-size-optimistic"] else []
+    let v9 := if o.popSize > com'.length - (gc' + gt') then ["trans-pop-size-optimistic"] else []
+    (v0 ++ v1 ++ v2 ++ v3 ++ v4 ++ v5 ++ v6 ++ v7 ++ v8 ++ v9,
+     { com := com', comAt := comAt', tent := tent', gc := gc', gt := gt', now := q.now + 1
+       afLvl := some e.afLevel, aeLvl := some (e.aeLevel % M) })
 
 end Gatery.C15
